@@ -43,11 +43,23 @@ static char *toks[MAXTOK];
 static int ntok, tpos;
 static int callbacks;
 static int last_cat;
+static char last_msg[256];
 
 static void error_fn(const char *message, void *arg, vnaerr_category_t category)
 {
     ++callbacks;
     last_cat = (int)category;
+    {
+	size_t i;
+
+	for (i = 0; message[i] != '\0' && i < sizeof(last_msg) - 1; ++i) {
+	    char c = message[i];
+
+	    last_msg[i] = ((c >= 'a' && c <= 'z') || (c >= 'A' && c <= 'Z') ||
+		    (c >= '0' && c <= '9') || c == '.' || c == '-' || c == '+') ? c : '_';
+	}
+	last_msg[i] = '\0';
+    }
     if (getenv("SELFCAL_VERBOSE") != NULL)
 	fprintf(stderr, "libvna: %s\n", message);
 }
@@ -81,6 +93,133 @@ static const char *cat_name(int c)
     default:              return "?";
     }
 }
+
+
+#ifdef SELFCAL_WB
+/*
+ * White-box build (harness/selfcal_wb.c): _vnacal_new_solve_simple and _vnacal_new_solve_auto
+ * are compiled from the working tree's source text by the wrappers selfcal_wb_simple.c and
+ * selfcal_wb_auto.c, with
+ *   - the weight vector constructor and the linear solvers they call routed through taps, and
+ *   - solve_auto's own DEBUG prints (DEBUG 2) routed to a tap that records the values with
+ *     full precision (the library's printf is redirected; matrix dumps are discarded).
+ * The source is not modified.  Output lines start with "wb".
+ */
+static int wb_mode;		/* 0: real weights; 1: all ones; 2: w[i] = i + 2 (index markers) */
+static int wb_trace;		/* print the per-iteration trajectory of solve_auto */
+static int wb_dump;		/* dump coefficient matrices handed to the solvers */
+/* taps, called from harness/selfcal_wb_simple.c and harness/selfcal_wb_auto.c */
+double *wb_calc_weights(vnacal_new_solve_state_t *vnssp);
+int wb_qr(complex double *a, complex double *q, complex double *r, int m, int n);
+int wb_qrsolve(complex double *x, complex double *a, complex double *b, int m, int n, int o);
+double complex wb_mldivide(complex double *x, complex double *a, const double complex *b,
+	int m, int n);
+int wb_printf(const char *fmt, ...);
+#include <stdarg.h>
+
+static void wb_matrix(const char *tag, const double complex *a, int m, int n)
+{
+    printf("wb %s %d %d", tag, m, n);
+    for (int i = 0; i < m * n; ++i)
+	printf(" %.17g %.17g", creal(a[i]), cimag(a[i]));
+    printf("\n");
+}
+
+double *wb_calc_weights(vnacal_new_solve_state_t *vnssp)
+{
+    vnacal_new_t *vnp = vnssp->vnss_vnp;
+    const int m_columns = VL_M_COLUMNS(&vnp->vn_layout);
+    double *w = _vnacal_new_solve_calc_weights(vnssp);
+
+    if (w == NULL)
+	return NULL;
+    /* the vector as computed by the library */
+    printf("wb weights findex=%d n=%d", vnssp->vnss_findex, vnp->vn_equations);
+    for (int i = 0; i < vnp->vn_equations; ++i)
+	printf(" %.17g", w[i]);
+    printf("\n");
+    /* the measurement value belonging to every equation, in system / equation order */
+    for (int sindex = 0; sindex < vnp->vn_systems; ++sindex) {
+	printf("wb eqm findex=%d sys=%d", vnssp->vnss_findex, sindex);
+	for (vnacal_new_equation_t *vnep = vnp->vn_system_vector[sindex].vns_equation_list;
+		vnep != NULL; vnep = vnep->vne_next) {
+	    int cell = vnep->vne_row * m_columns + vnep->vne_column;
+	    double complex m = vnssp->vnss_msv_matrices[vnep->vne_vnmp->vnm_index].vnmm_m_matrix[cell];
+	    printf(" %.17g %.17g", creal(m), cimag(m));
+	}
+	printf("\n");
+    }
+    if (wb_mode == 1)
+	for (int i = 0; i < vnp->vn_equations; ++i) w[i] = 1.0;
+    if (wb_mode == 2)
+	for (int i = 0; i < vnp->vn_equations; ++i) w[i] = (double)(i + 2);
+    return w;
+}
+
+int wb_qr(complex double *a, complex double *q, complex double *r, int m, int n)
+{
+    printf("wb qr %d %d\n", m, n);		/* one per entry of solve_auto's loop body */
+    if (wb_dump)
+	wb_matrix("A", a, m, n);
+    return _vnacommon_qr(a, q, r, m, n);
+}
+
+int wb_qrsolve(complex double *x, complex double *a, complex double *b, int m, int n, int o)
+{
+    printf("wb qrsolve %d %d\n", m, n);
+    if (wb_dump) {
+	wb_matrix("A", a, m, n);
+	wb_matrix("b", b, m, o);
+    }
+    return _vnacommon_qrsolve(x, a, b, m, n, o);
+}
+
+double complex wb_mldivide(complex double *x, complex double *a, const double complex *b,
+	int m, int n)
+{
+    printf("wb mldivide %d %d\n", m, n);
+    if (wb_dump) {
+	wb_matrix("A", a, m, m);
+	wb_matrix("b", b, m, n);
+    }
+    return _vnacommon_mldivide(x, a, b, m, n);
+}
+
+int wb_printf(const char *fmt, ...)
+{
+    static const struct { const char *prefix; const char *tag; int kind; } tab[] = {
+	{ "# sum_k_squared ",          "sum_k",      1 },
+	{ "# best_sum_k_squared ",     "best_sum_k", 1 },
+	{ "# best\n",                  "best",       0 },
+	{ "# increasing marquardt",    "reject",     0 },
+	{ "# marquardt_multiplier ",   "mult",       1 },
+	{ "# lambda ",                 "lambda",     1 },
+	{ "# sum_d_squared ",          "sum_d",      1 },
+	{ "# sum_dx_squared ",         "sum_dx",     1 },
+	{ "# vn_p_tolerance ",         "ptol",       1 },
+	{ "# vn_et_tolerance ",        "ettol",      1 },
+	{ "# stop: converged",         "converged",  2 },
+    };
+    va_list ap;
+
+    if (!wb_trace)
+	return 0;
+    va_start(ap, fmt);
+    for (size_t i = 0; i < sizeof(tab) / sizeof(tab[0]); ++i) {
+	if (strncmp(fmt, tab[i].prefix, strlen(tab[i].prefix)) == 0) {
+	    if (tab[i].kind == 1)
+		printf("wb ev %s %.17g\n", tab[i].tag, va_arg(ap, double));
+	    else if (tab[i].kind == 2)
+		printf("wb ev %s %d\n", tab[i].tag, va_arg(ap, int));
+	    else
+		printf("wb ev %s\n", tab[i].tag);
+	    break;
+	}
+    }
+    va_end(ap);
+    return 0;
+}
+#endif /* SELFCAL_WB */
 
 static struct { char name[64]; int handle; } names[MAXNAMES];
 static int nnames;
@@ -237,6 +376,12 @@ int main(int argc, char **argv)
 	    if (h < 0) { report("correlated", -1); fail("correlated"); }
 	    define(name, h);
 
+#ifdef SELFCAL_WB
+	} else if (strcmp(op, "wb") == 0) {
+	    wb_mode = nexti();
+	    wb_trace = nexti();
+	    wb_dump = nexti();
+#endif
 	} else if (strcmp(op, "ptol") == 0) {
 	    report("ptol", vnacal_new_set_p_tolerance(vnp, nextd()));
 	} else if (strcmp(op, "ettol") == 0) {
@@ -312,10 +457,13 @@ int main(int argc, char **argv)
 	    vnp->vn_pvalue_vector = pv;		/* same hidden hook the repository's tests use */
 	    int rc = vnacal_new_solve(vnp);
 	    int e = errno;
+#ifdef SELFCAL_WB
+	    printf("wb endsolve\n");
+#endif
 	    vnp->vn_pvalue_vector = NULL;
-	    printf("solve rc=%d errno=%s cb=%d cat=%s eqs=%d sys=%d maxeq=%d xlen=%d unk=%d corr=%d pvalues=",
+	    printf("solve rc=%d errno=%s cb=%d cat=%s msg=%s eqs=%d sys=%d maxeq=%d xlen=%d unk=%d corr=%d pvalues=",
 		    rc, rc == 0 ? "0" : errno_class(e),
-		    callbacks, callbacks ? cat_name(last_cat) : "-",
+		    callbacks, callbacks ? cat_name(last_cat) : "-", callbacks ? last_msg : "-",
 		    vnp->vn_equations, vnp->vn_systems, vnp->vn_max_equations,
 		    vnp->vn_systems * (vnp->vn_layout.vl_t_terms - 1),
 		    vnp->vn_unknown_parameters, vnp->vn_correlated_parameters);
